@@ -1,12 +1,12 @@
 package main
 
 import (
-	"os"
-	"sort"
 	"fmt"
 	"go/token"
 	"go/types"
+	"os"
 	"regexp"
+	"sort"
 	"strings"
 
 	"golang.org/x/tools/go/ssa"
